@@ -1,20 +1,21 @@
 """Control-skeleton tie of the per-cycle statistics (notes/TIE_CYCLESTAT.md): two source files, two generated files.
 
-emd/cycles.py          -> coq/gen/Gen_Skel_Cyclestat.v        : get_cycle_stat, bin_by_phase, phase_align (whole bodies)
+emd/cycles.py          -> coq/gen/Gen_Skel_Cyclestat.v        : get_cycle_stat, bin_by_phase (whole bodies)
 emd/_cycles_support.py -> coq/gen/Gen_Skel_Cyclestatsupport.v : get_cycle_stat_from_samples, get_slice_stat_from_samples,
     get_augmented_cycle_stat_from_samples, make_slice_cache, augment_slice, make_aug_slice_cache (whole bodies)
 as terms of lib/PyLoop.v. model/SkelPrims_Cyclestat.v maps the opaque calls to the list operations that
 model/CycleStat.v / model/CyclesObj.v are written with; proofs/SkelFacts_Cyclestat.v proves the refinements (C14, C15).
-Always exits 0 (fail closed = poisoned file)."""
+phase_align is NOT translated: its loop calls a local callable (`f = interp.interp1d(..); avg[:, cind] = f(phase_bins)`)
+and the translator emits that call under the NAME f (N6) without the value of f, so the per-cycle interpolant cannot
+be expressed by a pure primitive (notes/TIE_CYCLESTAT.md). Always exits 0 (fail closed = poisoned file)."""
 import gen_skeleton
 
 gen_skeleton.generate(
     'emd/cycles.py',
     [('get_cycle_stat', 'body'),
-     ('bin_by_phase', 'body'),
-     ('phase_align', 'body')],
+     ('bin_by_phase', 'body')],
     'Gen_Skel_Cyclestat.v',
-    'Whole bodies of get_cycle_stat, bin_by_phase and phase_align (C14).',
+    'Whole bodies of get_cycle_stat and bin_by_phase (C14).',
     modules={'np', 're', 'warnings', 'functools', 'interp', 'spectra', 'utils', 'sift', '_cycles_support', 'logging'},
     logger='logger')
 
